@@ -77,7 +77,8 @@ def model_specs():
         "photon_collection": [("vp.cprobes.plain", "p1", {"i": 3 + s, "f": 2.5, "flag": True}, True),
                               ("vp.cprobes.plain", "p2", {"s": "txt", "lst": [1, 2 + s]}, False)],
         "charge_generation": [("vp.cprobes.plain", "q1", {"i": 7 + s, "w": [0.5, 1.5]}, True),
-                              ("vp.cprobes.plain", "q2", {}, True)],
+                              # (an argument declared with the value None - `seed: null` in a file - is a declared setting)
+                              ("vp.cprobes.plain", "q2", {"seed": None}, True)],
     }
 
 
